@@ -5,7 +5,7 @@
 From Coq Require Import ZArith List.
 From NTT Require Import Functors Algebra Inverse NTTInst NTTClosed NTTTables Shards Permut Tables FlatTable Fused GenEq.
 From NTT.gen Require Gen GenLoop.
-From NTT Require Structural GenLoopEq ScalarOps GenPrepEq InitSpec GenInitEq PrepSpec PermSem PermSrc InvNttSrc Frame InvNttAll SourceModel PowPhiSrc.
+From NTT Require Structural GenLoopEq ScalarOps GenPrepEq InitSpec GenInitEq PrepSpec PermSem PermSrc InvNttSrc Frame InvNttAll SourceModel PowPhiSrc InvPowPhiSrc.
 From NTT.gen Require GenPerm.
 From NTT.gen Require Import Params.
 Local Open Scope Z_scope.
@@ -293,3 +293,31 @@ Theorem C02_source_ntt_pow_phi : forall K k0 nm P roots data ph sph om, (4 <= S 
      GenLoop.gen_ntt_pow_phi_serial_u64 (Z.of_nat n) (Z.of_nat nm) data ph sph om P = out 64 /\ GenLoop.gen_ntt_pow_phi_sse_u64 (Z.of_nat n) (Z.of_nat nm) data ph sph om P = out 64 /\ GenLoop.gen_ntt_pow_phi_avx2_u64 (Z.of_nat n) (Z.of_nat nm) data ph sph om P = out 64).
 Proof. exact PowPhiSrc.source_ntt_pow_phi_pointwise. Qed.
 Print Assumptions C02_source_ntt_pow_phi.
+
+(* core::invntt_pow_invphi OF THE SOURCE, whole function, every build and limb type (gen_invntt_pow_invphi_<build>_uN: the loop over the moduli
+   calling the translated core::inv_ntt on row cm of _data with invomegas[cm], shoupinvomegas[cm] (read as invomegas[cm] + degree, the form in
+   which core::initialize() sets it) and invpolyDegree[cm]; then the expression-template statement op = shoup(op * invpoly_times_invphis,
+   shoupinvpoly_times_invphis) as the oracle ExprSem.expr_shoup_mul).  On arrays described pointwise as C02_source_initialize describes what
+   core::initialize() leaves, for a row (p, g) with g^(maxdeg) = -1 mod p (C06: every row of the tables), any number of moduli, any degree 2^k,
+   k = 4..30, canonical rows: row c becomes NTTInst.ntt_inv_s of row c -- the extracted inverse transform of C01/C02.  With
+   C02_source_ntt_pow_phi, C02_structure_*_open and C02_inv_fwd_open / C02_fwd_inv_open this is the round trip on the translated source,
+   up to the meaning of the two expression-template statements (C07). *)
+Theorem C02_source_invntt_pow_invphi : forall K k0 nm fuel P roots invk data iom ipd ipi sipi y0, (4 <= S k0 <= 30)%nat -> (S k0 <= K)%nat -> Z.of_nat nm < 2 ^ 28 -> (S k0 < fuel)%nat ->
+  length data = (nm * 2 ^ S k0)%nat -> (nm <= length ipd)%nat -> (nm * 2 ^ S k0 <= length ipi)%nat -> (nm * 2 ^ S k0 <= length sipi)%nat -> (nm * (2 * 2 ^ S k0) <= length iom)%nat ->
+  length y0 = S (2 ^ S k0) ->
+  let n := (2 ^ S k0)%nat in let row := fun c => List.firstn n (List.skipn (c * n) data) in
+  (forall c, (c < nm)%nat -> List.Forall (fun v => 0 <= v < List.nth c P 0) (row c)) ->
+  (forall c, (c < nm)%nat -> (List.nth c roots 0 ^ (2 ^ Z.of_nat K)) mod List.nth c P 0 = List.nth c P 0 - 1) ->
+  let tables := fun bits => forall c, (c < nm)%nat -> let p := List.nth c P 0 in let g := List.nth c roots 0 in let ik := List.nth c invk 0 in let shp := List.map (fun v => (v * 2 ^ bits) / p) in
+     (forall i, (i < n)%nat -> List.nth (c * n + i) ipi 0 = List.nth i (cs p g ik K k0) 0 /\ List.nth (c * n + i) sipi 0 = List.nth i (shp (cs p g ik K k0)) 0) /\
+     (forall i, (i < n - 1)%nat -> List.nth (c * (n * 2) + i) iom 0 = List.nth i (FlatTable.flat p (S k0) (invomega p g K k0)) 0 /\
+                                   List.nth (c * (n * 2) + n + i) iom 0 = List.nth i (shp (FlatTable.flat p (S k0) (invomega p g K k0))) 0) in
+  let ok := fun bits (r : option (list Z * list Z)) => exists yf, r = Some (List.concat (List.map (fun c => ntt_inv_s bits (List.nth c P 0) (List.nth c roots 0) (List.nth c invk 0) K k0 (row c)) (List.seq 0 nm)), yf) in
+  ((forall c, (c < nm)%nat -> ScalarOps.Hrow 16 (List.nth c P 0)) -> tables 16 ->
+     ok 16 (GenLoop.gen_invntt_pow_invphi_serial_u16 fuel (Z.of_nat n) (Z.of_nat nm) data iom ipd ipi sipi P y0) /\ ok 16 (GenLoop.gen_invntt_pow_invphi_sse_u16 fuel (Z.of_nat n) (Z.of_nat nm) data iom ipd ipi sipi P y0) /\ ok 16 (GenLoop.gen_invntt_pow_invphi_avx2_u16 fuel (Z.of_nat n) (Z.of_nat nm) data iom ipd ipi sipi P y0)) /\
+  ((forall c, (c < nm)%nat -> ScalarOps.Hrow 32 (List.nth c P 0)) -> tables 32 ->
+     ok 32 (GenLoop.gen_invntt_pow_invphi_serial_u32 fuel (Z.of_nat n) (Z.of_nat nm) data iom ipd ipi sipi P y0) /\ ok 32 (GenLoop.gen_invntt_pow_invphi_sse_u32 fuel (Z.of_nat n) (Z.of_nat nm) data iom ipd ipi sipi P y0) /\ ok 32 (GenLoop.gen_invntt_pow_invphi_avx2_u32 fuel (Z.of_nat n) (Z.of_nat nm) data iom ipd ipi sipi P y0)) /\
+  ((forall c, (c < nm)%nat -> ScalarOps.Hrow 64 (List.nth c P 0)) -> tables 64 ->
+     ok 64 (GenLoop.gen_invntt_pow_invphi_serial_u64 fuel (Z.of_nat n) (Z.of_nat nm) data iom ipd ipi sipi P y0) /\ ok 64 (GenLoop.gen_invntt_pow_invphi_sse_u64 fuel (Z.of_nat n) (Z.of_nat nm) data iom ipd ipi sipi P y0) /\ ok 64 (GenLoop.gen_invntt_pow_invphi_avx2_u64 fuel (Z.of_nat n) (Z.of_nat nm) data iom ipd ipi sipi P y0)).
+Proof. exact InvPowPhiSrc.source_invntt_pow_invphi. Qed.
+Print Assumptions C02_source_invntt_pow_invphi.
